@@ -18,10 +18,10 @@ def bounds(tier):
 
 
 def mk(n_rc, n_rd, n_other, allow, opt, source='string', order=None, T=60, with_replace=False, same_mid=False,
-       blank_roid=None, repeat=None):
+       blank_roid=None, repeat=None, completed_rc=None):
     n = n_rc + n_rd + n_other
     P = {'n_rc': n_rc, 'n_rd': n_rd, 'n_other': n_other, 'allow': allow, 'opt': opt, 'source': source, 'order': order,
-         'with_replace': with_replace, 'same_mid': same_mid, 'blank_roid': blank_roid, 'repeat': repeat}
+         'with_replace': with_replace, 'same_mid': same_mid, 'blank_roid': blank_roid, 'repeat': repeat, 'completed_rc': completed_rc}
     sym = [('r%d' % i, 'str') for i in range(n)]
     pre = str_pre([s for s, _ in sym])
     cid = 'C11/rc%d-rd%d-other%d/%s/%s/%s' % (n_rc, n_rd, n_other, 'allow-incomplete' if allow else 'complete-only',
@@ -36,6 +36,8 @@ def mk(n_rc, n_rd, n_other, allow, opt, source='string', order=None, T=60, with_
         cid += '/entry-%d-listed-twice' % repeat
     if order:
         cid += '/order-' + ''.join(map(str, order))
+    if completed_rc:
+        cid += '/roCreate-' + '+'.join(map(str, completed_rc)) + '-is-saved-completed-output'
     return Cell(pid=PID, cid=cid, harness='h_collect:accept_cell', params=P, sym=sym, pre=pre, stubs=(),
                 timeout=T, cost=n, example={'r%d' % i: 'R' for i in range(n)})
 
@@ -56,6 +58,14 @@ def cells(tier):
         # allow_incomplete is honoured by every constructor
         for (n_rc, n_rd, n_other) in ((1, 0, 1), (1, 0, 0), (1, 2, 0), (0, 0, 1)):
             out.append(mk(n_rc, n_rd, n_other, True, False, source=src, T=T))
+    # a saved, completed merge result is a roCreate document like any other: it counts as one
+    for (n_rc, n_rd, n_other), comp in (((1, 1, 0), [0]), ((1, 0, 1), [0]), ((1, 0, 0), [0]), ((2, 1, 1), [0]), ((2, 1, 1), [1]),
+                                        ((2, 1, 0), [0, 1]), ((2, 0, 0), [1]), ((1, 1, 2), [0])):
+        for allow in (False, True):
+            for opt in (False, True):
+                out.append(mk(n_rc, n_rd, n_other, allow, opt, T=T, completed_rc=comp))
+    out.append(mk(2, 1, 1, False, False, source='file', T=T, completed_rc=[1], order=[3, 1, 0, 2]))
+    out.append(mk(1, 1, 1, True, False, source='s3', T=T, completed_rc=[0]))
     # the same string / path / key listed twice counts twice
     for src in ('string', 'file', 's3'):
         for (n_rc, n_rd, n_other), rep in (((1, 1, 0), 0), ((1, 1, 0), 1), ((1, 1, 1), 1), ((1, 0, 1), 0)):
